@@ -26,6 +26,8 @@ class StmtMixin:
         if d is None:
             raise Unsupported('no destructor found for ' + self.rec_pretty(rid))
         d = self.ast.definition(d)
+        if self.ast.body(d) is None and not (d.get('isImplicit') or d.get('explicitlyDefaulted')):
+            return ['%s(&%s);' % (self.fn_cname(d), cexpr)]      # user-declared destructor without a body here: opaque stub
         if self.ast.body(d) is None:
             # implicit/defaulted non-trivial destructor: destroy members in reverse order
             rec = self.ast.record_def(rid)
